@@ -104,6 +104,8 @@ pub fn run(kv: &Args) -> i32 {
         let mut c2 = mk(&ctx); c2.action.push(7); muts.push(("action".into(), t, proof.s, y, base, c2));
         let mut c2 = mk(&ctx); c2.label = leak(b"other-label"); muts.push(("label".into(), t, proof.s, y, base, c2));
         if !ctx.sid.is_empty() { let mut c2 = mk(&ctx); c2.sid[0] ^= 1; muts.push(("sid-bit".into(), t, proof.s, y, base, c2)); }
+        if ctx.sid.len() > 1 { let mut c2 = mk(&ctx); let l = c2.sid.len(); c2.sid[l - 1] ^= 0x80; muts.push(("sid-lastbit".into(), t, proof.s, y, base, c2)); }
+        if !ctx.action.is_empty() { let mut c2 = mk(&ctx); let l = c2.action.len(); c2.action[l - 1] ^= 0x80; muts.push(("action-lastbit".into(), t, proof.s, y, base, c2)); }
         // single-bit mutations of the response
         let nbits = if kv.thorough() { 256 } else { 12 };
         for k in 0..nbits {
